@@ -13,9 +13,9 @@ def sendCountAux : List Act → Nat
   | _ :: as => sendCountAux as
 
 section
-variable {accts : List Acct} {groups : List (Nat × List Acct)}
+variable {ex : Bool} {accts : List Acct} {groups : List (Nat × List Acct)}
 
-theorem init_TInv (hw : WFConfig accts groups) : TInv accts groups (initSys accts groups) := by
+theorem init_TInv (hw : WFConfig accts groups) : TInv ex accts groups (initSys accts groups) := by
   refine ⟨init_inv accts groups hw, ?_⟩
   have hcl : ∀ r, (view (initSys accts groups)).cl r = {} := fun r => getClient_init accts groups r
   have hin : ∀ r, (view (initSys accts groups)).inb r = [] := fun r => rfl
@@ -139,8 +139,8 @@ theorem step_submitted_len {s : Sys} {act : Act} (hA : AInv accts groups (abs s)
   | restart a => rfl
 
 theorem TInv_run (hw : WFConfig accts groups) (hnd : ∀ g ∈ groups, g.2.Nodup) (acts : List Act) : ∀ s : Sys,
-    TInv accts groups s → AllowedRun s acts = true → NoFault acts = true → s.submitted.length + sendCountAux acts ≤ 100 →
-    TInv accts groups (run s acts) := by
+    TInv ex accts groups s → AllowedRun s acts = true → NoFault acts = true → s.submitted.length + sendCountAux acts ≤ 100 →
+    TInv ex accts groups (run s acts) := by
   induction acts with
   | nil => intro s h _ _ _; exact h
   | cons act acts ih =>
